@@ -209,6 +209,20 @@ CHECKS = {
              'arbitrary values is not modelled. One open known finding (KF-C19-1).',
         technique='TLA+ spec as enumerator/oracle of what is carried + replay through real exporters and readers',
         design='7/C19'),
+    'C18': dict(
+        text='Viewer.tla part 1: the layer set a viewer must hold as a function of the collection, the live subset groups and the '
+             'datasets given to it; TLC enumerates every history of <= 5 collection/viewer operations (append, remove, re-append, '
+             'groups, add/remove data on the viewer, hub delay blocks, save+restore of the viewer) plus random walks; each runs on a '
+             'real base Viewer (exhaustively) and on the four matplotlib viewers (sample + walks, headless Agg) and viewer.layers / '
+             'viewer.state.layers are compared with the required set and with each other after every step; the image viewer\'s axes are '
+             'checked to be distinct pixel axes of its reference data. Part 2: ComponentIDComboHelper - choices and selection as a '
+             'function of the datasets\' ordered attributes, their kinds and the kind filters, under attribute add/remove/reorder, '
+             'dataset add/remove, filter changes and explicit selections (every history of <= 4 operations).',
+        note='Bounded: 2-3 datasets, 2-3 groups; viewer operations only outside hub delay blocks; the picker may select any remaining '
+             'choice when its selection disappears. Two open known findings (KF-C18-1, KF-C18-2). Qt/Jupyter front-ends are other repositories; '
+             'ManualDataComboHelper/DataCollectionComboHelper are not driven yet.',
+        technique='TLA+ spec + TLC + behaviour replay into real viewers and combo helpers',
+        design='7/C18'),
 }
 
 NOT_APPLICABLE = {}
